@@ -132,6 +132,10 @@ def run_osfs(rnd, paths, temp=False):
         with open(os.path.join(base, "x"), "wb") as fh:
             fh.write(b"outside")
         os.makedirs(os.path.join(base, "outer", "sibling"))
+        os.makedirs(os.path.join(base, "outer", "root-private"))
+        with open(os.path.join(base, "outer", "root-private", "secret"), "wb") as fh:
+            fh.write(b"outside")
+        paths = list(paths) + ["../root-private/secret", "../root-private", "a/../../root-private/secret"]
         fsx = OSFS(root)
         for name in ("os", "io", "shutil"):
             saved[name] = getattr(mod, name)
@@ -238,6 +242,12 @@ def run_subfs(rnd, paths, depth):
     inner.writebytes("canary", b"canary")
     inner.makedirs("sibling")
     inner.writebytes("sibling/x", b"outside")
+    # a sibling whose name starts with the sub-directory's own name (string-prefix vs component-prefix)
+    twin = "/".join(subs[:-1] + [subs[-1] + "-private"])
+    inner.makedirs(twin)
+    inner.writebytes(twin + "/secret", b"outside")
+    paths = list(paths) + ["../%s-private/secret" % subs[-1], "../%s-private" % subs[-1],
+                           "x/../../%s-private/secret" % subs[-1], "../%s-private/new" % subs[-1]]
     parent = make_recording(log, 0)(inner)
     fsx = parent
     for s in subs:
@@ -246,7 +256,8 @@ def run_subfs(rnd, paths, depth):
 
     def outside_snapshot():
         return (inner.readbytes("canary"), sorted(inner.listdir("/")), inner.readbytes("sibling/x"),
-                sorted(inner.listdir("sibling")))
+                sorted(inner.listdir("sibling")), sorted(inner.listdir(twin)),
+                inner.readbytes(twin + "/secret") if inner.isfile(twin + "/secret") else None)
     base = outside_snapshot()
     for (m, params, positions) in public_methods():
         for which in positions:
@@ -277,6 +288,8 @@ def run_subfs(rnd, paths, depth):
                                 dict(depth=depth, method=m, position=which, path=p, verdict=verdict, received=escaped[:4])))
                 if outside_snapshot() != base:
                     bad.append(("content outside the SubFS changed", dict(depth=depth, method=m, position=which, path=p)))
+                    inner.makedirs(twin, recreate=True)
+                    inner.writebytes(twin + "/secret", b"outside")
                     inner.writebytes("canary", b"canary")
                     inner.makedirs("sibling", recreate=True)
                     inner.writebytes("sibling/x", b"outside")
